@@ -60,6 +60,33 @@ Section SamplersR.
     - split; [lra | apply fl_integral].
   Qed.
 
+  (* RNG::halfNormalReal stays in [r_min, r_max] and RNG::halfNormalInt in {r_min..r_max}, for every normal variate and focus *)
+  Lemma half_normal_real_range : forall rmin rmax focus g, rmin <= rmax ->
+    rmin <= half_normal_real A Rdiv rmin rmax focus g <= rmax.
+  Proof.
+    intros rmin rmax focus g H. unfold half_normal_real, gaussian. cbn [fsub fmul fadd flt fle f0 f2 ReA].
+    set (mean := rmax - rmin). set (v0 := g * (mean / focus) + mean).
+    destruct (Rltb_spec mean v0) as [Q|Q].
+    - destruct (Rleb_spec 0 (2 * mean - v0)) as [P|P].
+      + destruct (Rltb_spec rmax (2 * mean - v0 + rmin)); unfold mean in *; lra.
+      + destruct (Rltb_spec rmax rmin); lra.
+    - destruct (Rleb_spec 0 v0) as [P|P].
+      + destruct (Rltb_spec rmax (v0 + rmin)); unfold mean in *; lra.
+      + destruct (Rltb_spec rmax rmin); lra.
+  Qed.
+  Lemma half_normal_int_range : forall rmin rmax focus g (nl nh : Z), rmin = IZR nl -> rmax = IZR nh -> rmin <= rmax ->
+    rmin <= half_normal_int A Rdiv rmin rmax focus g <= rmax /\ exists n, half_normal_int A Rdiv rmin rmax focus g = IZR n.
+  Proof.
+    intros rmin rmax focus g nl nh El Eh H. unfold half_normal_int. rewrite one_is_1. cbn [ffloor flt fadd ReA].
+    set (x := half_normal_real A Rdiv rmin (rmax + 1) focus g).
+    assert (Hx : rmin <= x <= rmax + 1) by (apply half_normal_real_range; lra).
+    assert (Hfl : rmin <= fl x).
+    { pose proof (fl_mono rmin x (proj1 Hx)) as M. rewrite El in M at 1. replace (IZR nl) with (IZR nl + 0) in M at 1 by ring. rewrite (fl_int nl 0) in M by lra. rewrite El. exact M. }
+    destruct (Rltb_spec rmax (fl x)) as [L|L].
+    - split; [lra | exists nh; exact Eh].
+    - split; [lra | apply fl_integral].
+  Qed.
+
   Lemma take1_unit : forall tape, Forall unit01 tape -> unit01 (fst (take1 A tape)) /\ Forall unit01 (snd (take1 A tape)).
   Proof. intros [|u t] H; cbn [take1 fst snd f0 ReA]; [split; [unfold unit01; lra | constructor] | inversion H; subst; split; assumption]. Qed.
   Lemma take1_len : forall tape, (length tape <= length (snd (take1 A tape)) + 1)%nat.
